@@ -685,6 +685,7 @@ class BaseConnector:
             if self._limit_per_host:
                 self._acquired_per_host[key].add(placeholder)
 
+            created: ResponseHandler | None = None
             try:
                 # Traces are done inside the try block to ensure that the
                 # that the placeholder is still cleaned up if an exception
@@ -692,12 +693,16 @@ class BaseConnector:
                 if traces:
                     for trace in traces:
                         await trace.send_connection_create_start()
-                proto = await self._create_connection(req, traces, timeout)
+                proto = created = await self._create_connection(req, traces, timeout)
                 if traces:
                     for trace in traces:
                         await trace.send_connection_create_end()
             except BaseException:
                 self._release_acquired(key, placeholder)
+                if created is not None:
+                    # Cancelled (or failed) in a trace callback after the
+                    # connection was made: nobody else knows about it.
+                    created.close()
                 raise
             else:
                 if self._closed:
